@@ -56,7 +56,7 @@ func VerifC18IPv4Shape() {
 	accepted := addRecordAccepted(o1, typeA, data)
 	vCover("checked")
 	if vParam(0) >= 1 && vParam(0) <= 3 && vParam(1) >= 1 && vParam(1) <= 3 && vParam(2) >= 1 && vParam(2) <= 3 && vParam(3) >= 1 && vParam(3) <= 3 {
-		vCoverIf(accepted, "accepted")
+		vRequire(accepted, "accepted")
 	}
 	vAssert(accepted == want, "C18/A-record-accepts-exactly-canonical-public-unicast-dotted-quads")
 }
@@ -102,7 +102,7 @@ func VerifC18IPv6Shape() {
 	accepted := addRecordAccepted(o1, typeAAAA, data)
 	vCover("checked")
 	if vParam(0) == 1 {
-		vCoverIf(accepted, "accepted")
+		vRequire(accepted, "accepted")
 		vCoverIf(want, "valid")
 	}
 	vAssert(accepted == want, "C18/AAAA-record-accepts-exactly-textual-global-unicast-addresses")
@@ -136,7 +136,7 @@ func VerifC18CNAMEShape() {
 	accepted := addRecordAccepted(o1, typeCNAME, data)
 	vCover("checked")
 	if vParam(0) == 1 {
-		vCoverIf(accepted, "accepted")
+		vRequire(accepted, "accepted")
 	}
 	vAssert(accepted == want, "C18/CNAME-record-accepts-exactly-valid-names")
 }
@@ -169,7 +169,7 @@ func VerifC18NameFree() {
 	name := s + ".com"
 	ok, _ := vRead("nns", "isAvailable", name)
 	vAssert(ok == RefName(name), "C18/isAvailable-accepts-exactly-valid-names")
-	vCoverIf(ok, "valid-name-of-this-length")
+	vRequire(ok, "valid-name-of-this-length")
 	vCoverIf(!ok, "invalid-name-of-this-length")
 }
 
@@ -190,7 +190,7 @@ func VerifC18NameShape() {
 			vAssert(!vEffects(), "C18/rejected-name-changes-nothing")
 		}
 		if vParam(0) == 1 {
-			vCoverIf(done, "registered")
+			vRequire(done, "registered")
 		}
 	}
 }
@@ -208,6 +208,6 @@ func VerifC18TLD() {
 	vAssert(done == want, "C18/registerTLD-accepts-exactly-valid-TLDs")
 	vCover("checked")
 	if vParam(0) >= 3 && vParam(0) <= 16 {
-		vCoverIf(done, "registered")
+		vRequire(done, "registered")
 	}
 }
